@@ -62,6 +62,11 @@ ASSUMPTIONS = [
     'its instantiation for the full collection state machine belongs to the Update/Store model; '
     'until then the write paths are covered by the direct check (b) only',
     'bulk_write is not exercised (it forwards to the same _insert / _update)',
+    'pipelines: datetimes *written* in the pipeline are covered at every position (aggPipeline); '
+    'datetimes *computed* by an expression are exercised for $dateFromParts only (known finding '
+    'aggregate_computed_raw); the values of the other date-producing operators ($add with a date, '
+    '$dateFromString, $toDate) are C04\'s matter; $lookup sub-pipelines (`pipeline`, `let`) are '
+    'not implemented in the library (C20)',
 ]
 KNOWN_CLASSES = ('aggregate_computed_raw',)
 
@@ -1266,8 +1271,14 @@ def _check_handed(judge, case, rep, pipeline, before, handed, model_line):
         judge.deviation(None, dict(rep, what='aggregate wrote to the pipeline object it was given'))
     if model_line is not None:
         parts = [x.strip() for x in model_line.split('|')]
-        if len(parts) != 2:
+        if len(parts) != 3:
             raise RuntimeError('driver answered %r' % model_line)
+        voc = 'T' if all(g.is_read_form(x, tz) for x in g.dates_of(pipeline)) else 'F'
+        if parts[2] != voc:
+            judge.ctx.violation(dict(rep, what='the predicate of the theorems (AllDates (ReadForm '
+                                     'tz)) disagrees with the Python oracle on the pipeline as '
+                                     'written', what_no_longer_checks='vocabulary correspondence',
+                                     py=voc, impl=parts[2]), no_input=True)
         if parts[0] != e_py:
             if e_py == e_spec:
                 judge.ctx.notes.append('model stale but python follows the rule (aggPipeline): '
